@@ -410,3 +410,146 @@ impl Property for C05Sched {
     }
     fn schedule_mut<'a>(&self, case: &'a mut ChanCase) -> Option<&'a mut Schedule> { Some(&mut case.schedule) }
 }
+
+// ---------------------------------------------------------------------------------------------------------------------
+// C06 at the channel level: gracefully_end_all_streams(ZERO) under the controlled scheduler
+
+pub fn judge_end_all(case: &ChanCase, run: &ChanRun) -> Option<(String, String)> {
+    let k = case.kind.short();
+    let Some(e) = run.ends.iter().find(|e| e.target.is_none()) else { return None };
+    let accepted_before: Vec<u64> = run.prefill.iter().copied().chain(run.sends.iter().filter(|s| s.accepted && !s.unfinished && s.ret < e.call).map(|s| s.val)).collect();
+    let listeners: Vec<usize> = if case.kind.is_multi() { (0..run.consumers.len()).collect() } else { vec![usize::MAX] };
+    for &li in &listeners {
+        for v in &accepted_before {
+            let yielded_by = |p: &&PollRec| matches!(p.res, PollRes::Item { val, .. } if val == *v) && (li == usize::MAX || p.consumer as usize == li);
+            let ever = run.polls.iter().any(|p| yielded_by(&p));
+            let in_time = run.polls.iter().any(|p| yielded_by(&p) && p.call < e.ret);
+            let who = if li == usize::MAX { "any stream".to_string() } else { format!("listener {li}") };
+            if !ever { return Some((format!("{k}/graceful-end-discarded-an-accepted-event"), format!("{} was accepted before gracefully_end_all_streams() was called at {} but was never yielded by {who}; history: {}", payload::show(*v), e.call, run.render()))); }
+            if !in_time { return Some((format!("{k}/graceful-end-returned-before-an-accepted-event-was-yielded"), format!("{} was accepted before gracefully_end_all_streams() was called, the call returned at {} and {who} was handed the event only later; history: {}", payload::show(*v), e.ret, run.render()))); }
+        }
+    }
+    for (ci, c) in run.consumers.iter().enumerate() {
+        if !c.ended { return Some((format!("{k}/stream-not-ended-by-graceful-end"), format!("gracefully_end_all_streams() returned at {} but the stream of consumer {ci} never answered end-of-stream; history: {}", e.ret, run.render()))); }
+        let end_at = run.polls.iter().filter(|p| p.consumer as usize == ci && p.res == PollRes::End).map(|p| p.ret).min().unwrap_or(u64::MAX);
+        if run.polls.iter().any(|p| p.consumer as usize == ci && !p.resub && matches!(p.res, PollRes::Item { .. }) && p.call > end_at) { return Some((format!("{k}/yield-after-end"), format!("consumer {ci} was handed an event after end-of-stream; history: {}", run.render()))); }
+    }
+    if e.answer != 0 { return Some((format!("{k}/graceful-end-reported-streams-left"), format!("gracefully_end_all_streams(ZERO) answered {} streams left; history: {}", e.answer, run.render()))); }
+    if run.running_at_quiescence != 0 { return Some((format!("{k}/streams-running-after-graceful-end"), format!("running_streams_count() = {} after gracefully_end_all_streams() returned and nothing can run any more; history: {}", run.running_at_quiescence, run.render()))); }
+    if run.open_after == Some(true) { return Some((format!("{k}/open-after-graceful-end"), format!("is_channel_open() after gracefully_end_all_streams() returned; history: {}", run.render()))); }
+    None
+}
+
+pub struct C06EndAll;
+impl Property for C06EndAll {
+    type Case = ChanCase;
+    fn part(&self) -> &'static str { "graceful-end-all-sched" }
+    fn strategy(&self, _tier: Tier) -> BoxedStrategy<ChanCase> {
+        case_strategy(Gen { kinds: &ALL_KINDS, max_streams: &[1, 2, 4], buffers: &[2, 4, 8], max_producers: 2, max_ops: 3, max_consumers: 3, retry: true, fresh_wakers: false, prefill: true, end_all: true, ..Default::default() })
+    }
+    fn cases(&self, tier: Tier) -> u32 { match tier { Tier::Quick => 4_000, Tier::Thorough => 80_000 } }
+    fn run(&self, case: &ChanCase) -> RunReport {
+        let run = execute(case, Epilogue { drain: true, ..Default::default() });
+        let judged = if run.end == EndState::Completed { judge_end_all(case, &run) } else { None };
+        let mut classes = base_classes(case);
+        let mut nontrivial = false;
+        if let Some(e) = run.ends.first() {
+            let before: Vec<u64> = run.prefill.iter().copied().chain(run.sends.iter().filter(|s| s.accepted && s.ret < e.call).map(|s| s.val)).collect();
+            let buffered = before.iter().filter(|v| !run.polls.iter().any(|p| matches!(p.res, PollRes::Item { val, .. } if val == **v) && p.ret < e.call)).count();
+            if buffered > 0 { classes.push("events-buffered-when-called".into()); nontrivial = true; }
+            if run.polls.iter().any(|p| p.call < e.ret && e.call < p.ret) { classes.push("overlapped-a-poll".into()); nontrivial = true; }
+            if run.sends.iter().any(|s| s.call < e.ret && e.call < s.ret) { classes.push("overlapped-a-send".into()); }
+        }
+        finish(case, &run, classes, nontrivial, judged)
+    }
+    fn rule(&self) -> String {
+        "generated: any of the 11 channel kinds x configuration x 0..B events already pending x 1..2 producers x 1..3 driven streams that drop themselves as soon as they answered end-of-stream (what an executor task does) x a closer thread calling gracefully_end_all_streams(Duration::ZERO) after 0..15 steps (driven to completion on a paused-clock runtime on its own logical thread, so every atomic operation of flush / cancel / wait stays a scheduling point) x schedule; \
+         oracle: every event whose send had returned Ok (or that was pending) before the call started is yielded -- to some stream (Uni) / to every listener (Multi) -- by a poll that started before the call returned, and is never discarded; every stream answered end-of-stream, nothing is yielded after it; the call answers 0, running_streams_count()==0 and !is_channel_open() afterwards; \
+         non-trivial: events were still buffered when the call started, or the call overlapped a poll".into()
+    }
+    fn schedule_mut<'a>(&self, case: &'a mut ChanCase) -> Option<&'a mut Schedule> { Some(&mut case.schedule) }
+}
+
+// ---------------------------------------------------------------------------------------------------------------------
+// C07, ending one stream: gracefully_end_stream(id, ZERO) under the controlled scheduler
+
+pub fn judge_end_one(case: &ChanCase, run: &ChanRun) -> Option<(String, String)> {
+    let k = case.kind.short();
+    let Some(e) = run.ends.iter().find(|e| e.target.is_some()) else { return None };
+    let t = e.target.unwrap() as usize;
+    let f = Facts::new(run);
+    let tc = &run.consumers[t];
+    if !tc.ended {
+        let what = if tc.parked_at_quiescence { "parked-not-ended" } else { "not-ended" };
+        return Some((format!("{k}/end-one/target-{what}"), format!("gracefully_end_stream() of consumer {t}'s stream was called at {} but the stream never answered end-of-stream ({what}); history: {}", e.call, run.render())));
+    }
+    if e.answer != 1 { return Some((format!("{k}/end-one/reported-failure"), format!("gracefully_end_stream(.., ZERO) answered false; history: {}", run.render()))); }
+    let end_at = run.polls.iter().filter(|p| p.consumer as usize == t && !p.resub && p.res == PollRes::End).map(|p| p.ret).min().unwrap_or(u64::MAX);
+    if run.polls.iter().any(|p| p.consumer as usize == t && !p.resub && !p.drain && matches!(p.res, PollRes::Item { .. }) && p.call > end_at) { return Some((format!("{k}/end-one/yield-after-end"), format!("the targeted stream yielded an event after end-of-stream; history: {}", run.render()))); }
+    // streams that were not targeted keep going
+    for (ci, _) in run.consumers.iter().enumerate() {
+        if ci != t && run.polls.iter().any(|p| p.consumer as usize == ci && p.res == PollRes::End) {
+            return Some((format!("{k}/end-one/untargeted-stream-ended"), format!("only consumer {t}'s stream was told to end, but consumer {ci}'s stream answered end-of-stream; history: {}", run.render())));
+        }
+    }
+    if run.polls.iter().any(|p| p.resub && p.res == PollRes::End) {
+        return Some((format!("{k}/end-one/untargeted-stream-ended/new-stream-after-the-target-was-dropped"), format!("the stream consumer {t} created after its first one had ended (and was dropped) answered end-of-stream although nobody told it to; history: {}", run.render())));
+    }
+    // payload sanity + delivery to the streams that stay
+    for p in &run.polls { if let PollRes::Item { val, intact, .. } = p.res { if !intact || !f.accepted.contains_key(&val) { return Some((format!("{k}/end-one/bad-payload"), format!("consumer {} yielded {} (intact={intact}) which was never accepted; history: {}", p.consumer, payload::show(val), run.render()))); } } }
+    if case.kind.is_multi() {
+        // known finding R8 (see C17): a send whose fan-out overlaps the rebuild of the live-listener list (here: the target's drop, the creation and
+        // the drop of its second stream) can miss / repeat listeners on the arc / ogre_arc kinds; those sends are left to C17's keyed finding
+        let mut windows: Vec<(u64, u64)> = vec![];
+        if !case.kind.is_mmap() { for w in [tc.dropped_at, tc.resub_at, tc.resub_dropped_at].into_iter().flatten() { windows.push(w); } }
+        let in_r8 = |v: &u64| f.accepted.get(v).copied().flatten().map(|s| windows.iter().any(|w| s.call < w.1 && w.0 < s.ret)).unwrap_or(false);
+        for ci in (0..run.consumers.len()).filter(|c| *c != t) {
+            let got: Vec<u64> = run.polls.iter().filter(|p| p.consumer as usize == ci && !p.resub).filter_map(|p| if let PollRes::Item { val, .. } = p.res { Some(val) } else { None }).collect();
+            for v in f.accepted.keys().filter(|v| !in_r8(v)) {
+                let n = got.iter().filter(|g| *g == v).count();
+                if n != 1 { return Some((format!("{k}/end-one/untargeted-listener-{}", if n == 0 { "missed-an-event" } else { "got-an-event-twice" }), format!("listener {ci} (not targeted) yielded {} {n} times (final drain included); history: {}", payload::show(*v), run.render()))); }
+            }
+        }
+        // everything accepted before the request reaches the targeted listener too (it drains before honouring the request)
+        let got_t: Vec<u64> = run.polls.iter().filter(|p| p.consumer as usize == t && !p.resub).filter_map(|p| if let PollRes::Item { val, .. } = p.res { Some(val) } else { None }).collect();
+        for v in run.prefill.iter().copied().chain(run.sends.iter().filter(|s| s.accepted && !s.unfinished && s.ret < e.call).map(|s| s.val)) {
+            if !got_t.contains(&v) { return Some((format!("{k}/end-one/target-lost-a-buffered-event"), format!("{} was accepted before gracefully_end_stream() was called but the targeted listener never yielded it; history: {}", payload::show(v), run.render()))); }
+        }
+    } else {
+        for (val, polls) in &f.delivered { if polls.len() > 1 { return Some((format!("{k}/end-one/duplicated"), format!("{} yielded {} times; history: {}", payload::show(*val), polls.len(), run.render()))); } }
+        let someone_left = run.consumers.len() > 1;
+        if someone_left { for v in f.accepted.keys() { if !f.delivered.contains_key(v) { return Some((format!("{k}/end-one/lost"), format!("{} was accepted but no stream ever yielded it although untargeted streams remain (final drain included); history: {}", payload::show(*v), run.render()))); } } }
+    }
+    None
+}
+
+pub struct C07EndOne;
+impl Property for C07EndOne {
+    type Case = ChanCase;
+    fn part(&self) -> &'static str { "end-one-sched" }
+    fn strategy(&self, _tier: Tier) -> BoxedStrategy<ChanCase> {
+        case_strategy(Gen { kinds: &ALL_KINDS, max_streams: &[1, 2, 4], buffers: &[2, 4, 8], max_producers: 2, max_ops: 3, max_consumers: 3, retry: true, fresh_wakers: true, prefill: true, end_one: true, ..Default::default() })
+    }
+    fn cases(&self, tier: Tier) -> u32 { match tier { Tier::Quick => 4_000, Tier::Thorough => 80_000 } }
+    fn run(&self, case: &ChanCase) -> RunReport {
+        let run = execute(case, Epilogue { drain: true, ..Default::default() });
+        let judged = if run.end == EndState::Completed { judge_end_one(case, &run) } else { None };
+        let mut classes = base_classes(case);
+        let mut nontrivial = false;
+        if let Some(e) = run.ends.first() {
+            let t = e.target.unwrap_or(0) as usize;
+            if run.polls.iter().any(|p| p.consumer as usize == t && p.call < e.ret && e.call < p.ret) { classes.push("request-overlapped-a-poll-of-the-target".into()); nontrivial = true; }
+            if run.polls.iter().filter(|p| p.consumer as usize == t && p.ret < e.call).last().map(|p| p.res == PollRes::Pending).unwrap_or(false) { classes.push("target-parked".into()); nontrivial = true; }
+            if run.consumers.len() > 1 { classes.push("untargeted-streams-present".into()); }
+            if run.polls.iter().any(|p| p.resub) { classes.push("target-resubscribed".into()); }
+            if run.polls.iter().any(|p| p.resub && run.consumers[t].stream_id == Some(p.stream)) { classes.push("id-reused-while-the-request-was-in-progress".into()); }
+        }
+        finish(case, &run, classes, nontrivial, judged)
+    }
+    fn rule(&self) -> String {
+        "generated: any of the 11 channel kinds x configuration x pending events x 1..2 producers x 1..3 driven streams x a thread calling gracefully_end_stream(id of one of them, Duration::ZERO) after 0..15 steps (driven to completion on a paused-clock runtime on its own logical thread) x the targeted consumer dropping its stream on end-of-stream and optionally subscribing again at once (a new stream that may re-use the id while the request is still looping) x schedule; \
+         oracle: the targeted stream answers end-of-stream (parked = violation, decided at quiescence), yields nothing afterwards, the call answers true; no other stream -- nor the stream created afterwards -- answers end-of-stream; Multi: every untargeted listener yields every accepted event exactly once and the targeted one everything accepted before the request; Uni: nothing twice, nothing lost while untargeted streams remain; \
+         non-trivial: the request overlapped a poll of the target or found it parked".into()
+    }
+    fn schedule_mut<'a>(&self, case: &'a mut ChanCase) -> Option<&'a mut Schedule> { Some(&mut case.schedule) }
+}
